@@ -22,6 +22,9 @@ def jobs(tier):
     for L in ([15, 22] if q else [9, 15, 22, 29, 57, 100]):
         for ivl in ([None, '1/100', '19/100'] if q else [None, '1/100', '1/20', '1/10', '19/100']):
             J('h_orig_bam', L=L, interval=ivl)
+    # both intervals configured, each time the OTHER one is the shorter: every transfer kind is paced by its own setting
+    J('h_orig_cmdt', L=29, interval='1/20', other_interval='1/100')
+    J('h_orig_bam', L=22, interval='1/10', other_interval='1/100')
     # BAM pacing while the job thread has other work that takes time (every send call of a pass takes 1 ms / 0.5 ms)
     J('h_orig_bam_busy', L=29, burst=12)
     J('h_orig_bam_busy', L=22, burst=30, tx='1/2000', interval='1/10')
